@@ -858,7 +858,20 @@ class Path:
         if self.sliced is not None:
             raise ValueError("already sliced")
 
-        self.sliced = self._get_related(var_set)
+        sliced = self._get_related(var_set)
+
+        # self.related only looks backward (it is computed when a condition is appended): also include
+        # the later conditions that constrain, possibly through other conditions, the sliced ones
+        changed = True
+        while changed:
+            changed = False
+            for idx, related in self.related.items():
+                if idx not in sliced and not sliced.isdisjoint(related):
+                    sliced.add(idx)
+                    sliced.update(related)
+                    changed = True
+
+        self.sliced = sliced
 
     def __deepcopy__(self, memo):
         raise NotImplementedError("use the branch() method instead of deepcopy()")
@@ -1678,6 +1691,10 @@ class Exec:  # an execution path
         """
 
         var_set = self.path.get_var_set(self.balance)
+
+        # the current time constrains what later transactions can do
+        timestamp = uint256(self.block.timestamp).as_z3()
+        var_set = itertools.chain(var_set, self.path.get_var_set(timestamp))
 
         # the keys of self.code are constant
         for _contract in self.code.values():
